@@ -3,6 +3,8 @@ module verif/mc
 go 1.23
 
 require (
+	github.com/getlantern/bytemap v0.0.0-20210122162547-b07440a617f0
+	github.com/getlantern/goexpr v0.0.0-20211215215226-4cdd4fd2847b
 	github.com/getlantern/golog v0.0.0-20210606115803-bce9f9fe5a5f
 	github.com/getlantern/wal v0.0.0-20220217194315-e4eac848dbd1
 	github.com/getlantern/zenodb v0.0.0
@@ -16,10 +18,8 @@ require (
 	github.com/davecgh/go-spew v1.1.1 // indirect
 	github.com/dgryski/go-rendezvous v0.0.0-20200823014737-9f7001d12a5f // indirect
 	github.com/dustin/go-humanize v1.0.0 // indirect
-	github.com/getlantern/bytemap v0.0.0-20210122162547-b07440a617f0 // indirect
 	github.com/getlantern/context v0.0.0-20190109183933-c447772a6520 // indirect
 	github.com/getlantern/errors v1.0.1 // indirect
-	github.com/getlantern/goexpr v0.0.0-20211215215226-4cdd4fd2847b // indirect
 	github.com/getlantern/hex v0.0.0-20190417191902-c6586a6fe0b7 // indirect
 	github.com/getlantern/hidden v0.0.0-20201229170000-e66e7f878730 // indirect
 	github.com/getlantern/msgpack v3.1.4+incompatible // indirect
